@@ -1,4 +1,4 @@
-(* C09: user metadata across the wire.
+(* C09: user metadata across the wire (unary, server-streaming and client-streaming RPCs).
    Transcribes isReservedHeader / isWhitelistedHeader / encodeMetadataHeader /
    decodeMetadataHeader / encodeBinHeader / decodeBinHeader (internal/transport/http_util.go),
    imetadata.Validate / ValidatePair / ValidateKey (internal/metadata/metadata.go), the
@@ -214,21 +214,55 @@ Definition cli_step (a : option mdt) (f : str * str) : option mdt :=
   end.
 Definition cli_collect (fs : fields) : option mdt := fold_left cli_step fs (Some []).
 
-(* ---- one unary RPC ---- *)
-(* observation: [code; handler invoked; header fields written to the wire (the client's
-   stats handler saw OutHeader)] ++ handler md ++ client header ++ client trailer *)
-Definition fail_obs (code sent : Z) (trl : mdt) : word := [code; 0; sent] ++ dump [] ++ dump [] ++ dump trl.
-Definition rpc (auth : str) (md : mdt) (calls : list kvs) (h t : mdt) : word :=
+(* ---- the peer's HTTP/2 framer (x/net/http2 MetaHeadersFrame checks, httpguts) ---- *)
+(* httpguts.IsTokenRune minus upper case (validWireHeaderFieldName) *)
+Definition wire_name_char (c : Z) : bool :=
+  ((97 <=? c) && (c <=? 122)) || ((48 <=? c) && (c <=? 57)) ||
+  existsb (Z.eqb c) [33; 35; 36; 37; 38; 39; 42; 43; 45; 46; 94; 95; 96; 124; 126].
+Definition wire_name_ok (k : str) : bool :=
+  is_pseudo k || (match k with [] => false | _ => true end && forallb wire_name_char k).
+(* httpguts.ValidHeaderFieldValue: no control characters except space and tab, no DEL *)
+Definition wire_value_ok (v : str) : bool :=
+  forallb (fun c => negb ((c <? 32) && negb (c =? 9)) && negb (c =? 127)) v.
+Definition frame_ok (fs : fields) : bool :=
+  forallb (fun f => wire_name_ok (fst f) && wire_value_ok (snd f)) fs.
+
+(* ---- one RPC ---- *)
+(* mode 0: unary RPC, the handler uses grpc.SetHeader(ctx, h) / grpc.SetTrailer(ctx, t), which
+           hand the metadata to the transport stream without validating it (server.go);
+   mode 1, 3: server-streaming / client-streaming, ServerStream.SetHeader(h) then SetTrailer(t);
+   mode 2: server-streaming, ServerStream.SendHeader(h) then SetTrailer(t).
+   ServerStream.SetHeader/SendHeader validate and return INTERNAL (stream.go), and the
+   handler returns that error; ServerStream.SetTrailer only logs a validation failure and
+   sets the trailer anyway.  A header or trailer block with a field the client's framer
+   rejects terminates the stream with INTERNAL.
+   observation: [code; handler invoked; request header block written to the wire; code of
+   the error the handler got from Set/SendHeader (0 = none)] ++ handler md ++ client
+   header ++ client trailer *)
+Definition fail_obs (code sent : Z) (trl : mdt) : word :=
+  [code; 0; sent; 0] ++ dump [] ++ dump [] ++ dump trl.
+Definition rpc (auth : str) (mode : Z) (md : mdt) (calls : list kvs) (h t : mdt) : word :=
   let added := map lowkv calls in                      (* AppendToOutgoingContext *)
   if negb (validate_out md added) then fail_obs 13 0 [] else
   match srv_collect (request_fields auth md added) with
   | SRst => fail_obs 13 1 []
   | SEarly code => fail_obs code 1 [(n_content_type, [ct_grpc])]
   | SOk m =>
-    match cli_collect (response_header_fields h), cli_collect (response_trailer_fields t) with
-    | Some hm, Some tm => [0; 1; 1] ++ dump (from_in m) ++ dump hm ++ dump tm
-    | _, _ => [13; 1; 1] ++ dump (from_in m) ++ dump [] ++ dump []
-    end
+    let got := dump (from_in m) in
+    if negb (mode =? 0) && negb (validate_md h) then
+      (* refused by ServerStream.SetHeader/SendHeader: trailers-only INTERNAL response *)
+      [13; 1; 1; 13] ++ got ++ dump [] ++ dump [(n_content_type, [ct_grpc])]
+    else if negb (frame_ok (response_header_fields h)) then
+      [13; 1; 1; 0] ++ got ++ dump [] ++ dump []
+    else match cli_collect (response_header_fields h) with
+         | None => [13; 1; 1; 0] ++ got ++ dump [] ++ dump []
+         | Some hm =>
+           if negb (frame_ok (response_trailer_fields t)) then [13; 1; 1; 0] ++ got ++ dump hm ++ dump []
+           else match cli_collect (response_trailer_fields t) with
+                | None => [13; 1; 1; 0] ++ got ++ dump hm ++ dump []
+                | Some tm => [0; 1; 1; 0] ++ got ++ dump hm ++ dump tm
+                end
+         end
   end.
 
 (* ---- the property's reference ---- *)
@@ -247,9 +281,36 @@ Definition has_hop (md : mdt) (calls : list kvs) : bool :=
 Definition transport_md (auth : str) : mdt :=
   [(n_authority, [auth]); (n_content_type, [ct_grpc]); (n_user_agent, [ua])].
 Definition expect_ok (auth : str) (md : mdt) (calls : list kvs) (h t : mdt) : word :=
-  [0; 1; 1] ++ dump (transport_md auth ++ group (visible (user_pairs md calls)))
+  [0; 1; 1; 0] ++ dump (transport_md auth ++ group (visible (user_pairs md calls)))
          ++ dump ((n_content_type, [ct_grpc]) :: group (visible (pairs_of h)))
          ++ dump (group (visible (pairs_of t))).
+
+(* ---- a raw HTTP/2 peer: the request header block is the transport's seven fields followed
+   by arbitrary extra fields, one empty message, END_STREAM.  Observation:
+   [handler invoked; grpc-status received (-1 = RST_STREAM)] ++ handler md.
+   Extra pseudo-header fields are rejected by the server's framer (unknown, duplicate or
+   response pseudo-headers), as are invalid names/values. ---- *)
+Definition raw_frame_ok (extra : fields) : bool :=
+  forallb (fun f => negb (is_pseudo (fst f)) && wire_name_ok (fst f) && wire_value_ok (snd f)) extra.
+Definition raw_rpc (auth : str) (extra : fields) : word :=
+  if negb (raw_frame_ok extra) then [0; -1] ++ dump [] else
+  match srv_collect (transport_fields auth ++ extra) with
+  | SOk m => [1; 0] ++ dump (from_in m)
+  | SRst => [0; -1] ++ dump []
+  | SEarly code => [0; code] ++ dump []
+  end.
+(* reference for peers whose extra fields are "plain": not content-type / user-agent /
+   connection / host, and -bin values that are base64 (padded or not): reserved names are
+   dropped, everything else arrives decoded, grouped per key in order *)
+Definition raw_plain_field (f : str * str) : bool :=
+  negb (existsb (str_eqb (fst f)) [n_content_type; n_user_agent; n_connection; n_host]) &&
+  (is_reserved (fst f) || match decode_hdr (fst f) (snd f) with Some _ => true | None => false end).
+Definition raw_plain (extra : fields) : bool := raw_frame_ok extra && forallb raw_plain_field extra.
+Definition raw_decoded (extra : fields) : kvs :=
+  flat_map (fun f => if is_reserved (fst f) then []
+                     else match decode_hdr (fst f) (snd f) with Some v => [(fst f, v)] | None => [] end) extra.
+Definition raw_expect (auth : str) (extra : fields) : word :=
+  [1; 0] ++ dump (transport_md auth ++ group (raw_decoded extra)).
 
 (* ---- operations ---- *)
 Fixpoint get_calls (n : nat) (w : word) : option (list kvs * word) :=
@@ -263,18 +324,40 @@ Fixpoint get_calls (n : nat) (w : word) : option (list kvs * word) :=
             | None => None
             end
   end.
-Record rpcop := mkop { o_md : mdt; o_calls : list kvs; o_h : mdt; o_t : mdt }.
+Fixpoint get_fields (n : nat) (w : word) : option (fields * word) :=
+  match n with
+  | O => Some ([], w)
+  | S n' => match get_bytes w with
+            | Some (k, r) =>
+              match get_bytes r with
+              | Some (v, r') => match get_fields n' r' with
+                                | Some (l, r'') => Some ((k, v) :: l, r'')
+                                | None => None
+                                end
+              | None => None
+              end
+            | None => None
+            end
+  end.
+(* op [2; n; (name, value)...] : raw peer *)
+Definition decode_raw (w : word) : option fields :=
+  match w with
+  | 2 :: n :: r => if n <? 0 then None else
+                   match get_fields (Z.to_nat n) r with Some (fs, []) => Some fs | _ => None end
+  | _ => None
+  end.
+Record rpcop := mkop { o_mode : Z; o_md : mdt; o_calls : list kvs; o_h : mdt; o_t : mdt }.
 Definition decode_op (w : word) : option rpcop :=
   match w with
-  | 1 :: r =>
+  | 1 :: mode :: r =>
     match get_md r with
     | Some (md, n :: r1) =>
-      if n <? 0 then None else
+      if (n <? 0) || (mode <? 0) || (mode >? 3) then None else
       match get_calls (Z.to_nat n) r1 with
       | Some (calls, r2) =>
         match get_md r2 with
         | Some (h, r3) => match get_md r3 with
-                          | Some (t, []) => Some (mkop md calls h t)
+                          | Some (t, []) => Some (mkop mode md calls h t)
                           | _ => None
                           end
         | None => None
@@ -290,8 +373,8 @@ Definition get_auth (cfg : word) : option str :=
 
 Definition run_op (auth : str) (w : word) : option word :=
   match decode_op w with
-  | Some o => Some (rpc auth (o_md o) (o_calls o) (o_h o) (o_t o))
-  | None => None
+  | Some o => Some (rpc auth (o_mode o) (o_md o) (o_calls o) (o_h o) (o_t o))
+  | None => match decode_raw w with Some extra => Some (raw_rpc auth extra) | None => None end
   end.
 Fixpoint run_ops (auth : str) (ops : list word) : option (list word) :=
   match ops with
@@ -311,19 +394,34 @@ Definition run (cfg : word) (ops : list word) : option (list word) :=
       pairs, and the handler's non-reserved trailer pairs
    3  invalid user metadata: INTERNAL, the handler is not invoked and no header field was
       written to the wire (no OutHeader stats event on the client)
+   6  valid request metadata, invalid header metadata given to ServerStream.SetHeader /
+      SendHeader: the call is refused with INTERNAL and the RPC fails with INTERNAL
    95 clause 1 for metadata that uses the key "host" or "connection" (statement deviation)
+   96 clause 6 for invalid header/trailer metadata that the server API does not refuse: the
+      unary helpers grpc.SetHeader / grpc.SetTrailer (no validation) and
+      ServerStream.SetTrailer (validation failure only logged)
+   7  a raw HTTP/2 peer whose extra header fields are plain (see raw_plain): the handler is
+      invoked and sees the transport's entries plus the non-reserved extra fields, -bin values
+      base64-decoded whether padded or not, grouped per key in order; reserved names are dropped
    0  malformed case *)
 Definition server_md_ok (m : mdt) : bool :=
   validate_md m && nodupb (keys m).
 Definition clause_op (auth : str) (i : Z) (w obs : word) : Z * Z * bool :=
   match decode_op w with
-  | None => (0, i, false)
+  | None => match decode_raw w with
+            | Some extra => (7, i, if raw_plain extra then word_eqb obs (raw_expect auth extra) else true)
+            | None => (0, i, false)
+            end
   | Some o =>
     if negb (valid_user (o_md o) (o_calls o)) then
       (3, i, match obs with 13 :: 0 :: 0 :: _ => true | _ => false end)
+    else if has_hop (o_md o) (o_calls o) then
+      (95, i, word_eqb obs (expect_ok auth (o_md o) (o_calls o) (o_h o) (o_t o)))
+    else if validate_md (o_h o) && validate_md (o_t o) then
+      (1, i, word_eqb obs (expect_ok auth (o_md o) (o_calls o) (o_h o) (o_t o)))
     else
-      (if has_hop (o_md o) (o_calls o) then 95 else 1, i,
-       word_eqb obs (expect_ok auth (o_md o) (o_calls o) (o_h o) (o_t o)))
+      (if negb (o_mode o =? 0) && negb (validate_md (o_h o)) then 6 else 96, i,
+       match obs with 13 :: 1 :: 1 :: 13 :: _ => true | _ => false end)
   end.
 Fixpoint clauses_from (auth : str) (i : Z) (ops obs : list word) : list (Z * Z * bool) :=
   match ops, obs with
